@@ -1718,6 +1718,10 @@ class Tensor:
         if self._base is not None and not self._base._view_children:
             self._base = None
 
+        if self._base is not None:
+            # the base is about to be mutated through this view; its gradient is stale
+            self._base.null_grad()
+
         graph = _dup.DuplicatingGraph(self if self.base is None else self.base)
 
         # Create copy of base so that mutation has no impact on the
